@@ -559,13 +559,6 @@ Qed.
 
 Definition record_of (j : json) : obj := match j with JObj o => o | _ => [] end.
 
-Lemma clean_val_record sens str_of digest colq o :
-  clean_val sens str_of digest colq (JObj o) = CObj (clean_obj sens str_of digest colq o).
-Proof. apply clean_val_obj. Qed.
-
-Lemma jset_obj p v o : exists o', jset p v (JObj o) = JObj o' \/ p = [].
-Proof. destruct p; [exists []; now right | eexists; left; reflexivity]. Qed.
-
 Lemma output_depends_on_digest_only (digest : text -> text) colorize o p i kvs k v0 v1 v2 :
   forallb plain_key (jkeys p (JObj o)) = true ->
   jget p (JObj o) = Some (JObj kvs) -> nth_error kvs i = Some (k, v0) -> sensitive_spec k = true ->
